@@ -48,6 +48,8 @@ TEMPLATES = {
     "arrdel": ('<array name="f{i}" type="V" delimited="true"/>', True),
     "arrdelstr": ('<array name="f{i}" type="string" delimited="true"/>', True),
     "arrdel2nt": ('<array name="f{i}" type="V" length="2" delimited="true" trailing-delimiter="false"/>', True),
+    "arrdelntnolen": ('<array name="f{i}" type="string" delimited="true" trailing-delimiter="false"/>', True),
+    "arrdelntnolenV": ('<array name="f{i}" type="V" delimited="true" trailing-delimiter="false"/>', True),
     "lenarrdelnt": ('<length name="n{i}" type="char"/><array name="f{i}" type="string" length="n{i}" delimited="true" trailing-delimiter="false"/>', True),
     "optchar": ('<field name="f{i}" type="char" optional="true"/>', False),
     "optstr": ('<field name="f{i}" type="string" optional="true"/>', False),
@@ -77,7 +79,7 @@ SUPPORT += """
   <struct name="SX"><field name="p" type="char" optional="false"/><array name="q" type="char" length="2" optional="false" delimited="false"/></struct>
 """
 
-POSITIONS = ["top", "chunked", "case", "chunkedcase", "afterchunked"]
+POSITIONS = ["top", "chunked", "case", "chunkedcase", "afterchunked", "nestedchunked", "casechunked"]
 
 
 def body_xml(names, position):
@@ -95,6 +97,11 @@ def body_xml(names, position):
         return f'<chunked><field name="sel" type="char"/><switch field="sel"><case value="1">{seq}</case></switch></chunked>'
     if position == "afterchunked":
         return f'<chunked><field name="c0" type="string"/></chunked>{seq}'
+    if position == "nestedchunked":
+        return f'<chunked><field name="c0" type="string"/><break/><chunked>{seq}</chunked></chunked>'
+    if position == "casechunked":
+        return (f'<chunked><field name="sel" type="char"/><switch field="sel"><case value="1"><chunked>{seq}</chunked>'
+                f'</case></switch></chunked>')
     raise KeyError(position)
 
 
